@@ -40,7 +40,7 @@ PROPS = {
     "C05": P(["lifecycle"],
              "Proof (Verus): pay requires !live(w) && !pay_running; a Succeeded record is never followed by add_payment_attempt/pay; add_payment_attempt never overwrites a Succeeded record; the Free write of mark_failed is generation guarded (Released-phase rely).",
              LIFE_NOTE, assumptions=A_WORLD),
-    "C06": P(["lifecycle", "fee", "paystate"],
+    "C06": P(["lifecycle", "fee", "paystate", "tlv_dec"],
              "Proof of the safety half (Verus): every normal return of payment_lifecycle has answered exactly once (resolve requires not yet released, lifecycle ensures released); no reachable panic in the functions under contract (unwrap/expect/todo!/overflow/index are obligations). Known finding F-C06-a (todo! reachable). Liveness clauses are not applicable to this technique (level_note).",
              LIFE_NOTE + " NOT APPLICABLE clauses: 'eventually', 'no later than one MPP timeout', deadlock freedom (liveness / scheduler fairness).",
              assumptions=A_WORLD),
@@ -65,6 +65,12 @@ PROPS = {
              "Proof of the two mechanisms (Verus): no RPC / channel wait / timer is started while the table lock is held (every such env call requires !lock_held; lock scope by ghost unlock marker E7). The scheduling statement itself is not applicable.",
              LIFE_NOTE + " NOT APPLICABLE clause: 'a frozen RPC of A does not delay B' (liveness of tokio's scheduler).", assumptions=A_WORLD),
 }
+
+PROPS["C18"] = P(["tlv_dec"],
+    "Proof (Verus, unbounded loop invariant): get_compact_size, SerializedTlvStream::from_bytes and try_from(Vec<u8>) as extracted from src/tlv.rs are total (every bytes::Buf getter's remaining-length precondition is discharged: no panic on any byte string) and return exactly parse(bytes) of the BigSize/TLV spec functions in specs/tlv_spec.rs.",
+    "Trusted: " + TB_COMMON + " env/bytes.rs (mirror of bytes::Buf: big-endian getters, panic preconditions), AsRef view, 64-bit usize. get_tu64 is under an assumed contract in this unit (slice-range copy_from_slice / from_be_bytes are outside Verus' subset).",
+    assumptions=["env/bytes.rs describes bytes-1.6 Buf for &[u8], Bytes and Take<Bytes>", "64-bit target"],
+    bounded=[])
 
 NOT_APPLICABLE = {}
 HOOK_COMMITS = ["a595cb4"]
